@@ -1,7 +1,8 @@
 //! C16: ear clipping (`TriMesh::from_polygon`) and Hertel–Mehlhorn (`hertel_mehlhorn_idx`).
 use crate::util::*;
 use crate::p2::shape::TriMesh;
-use crate::p2::transformation::hertel_mehlhorn_idx;
+use crate::p2::transformation::{hertel_mehlhorn, hertel_mehlhorn_idx};
+use crate::p2::shape::Compound;
 
 type P2 = d2::Point<f64>;
 
@@ -27,7 +28,45 @@ pub fn exec(func: &str, a: &mut Args) -> String {
             let mut s = format!("{}", r.len());
             for q in r.iter() { s.push_str(&format!(" {}", q.len())); for i in q.iter() { s.push_str(&format!(" {}", i)); } }
             s }
+        // the point-valued wrapper `hertel_mehlhorn` (public API): pieces as point lists
+        "hertel_mehlhorn_pts" => { let p = poly(a); let k = a.u();
+            let t: Vec<[u32; 3]> = (0..k).map(|_| [a.u() as u32, a.u() as u32, a.u() as u32]).collect();
+            let r = hertel_mehlhorn(&p, &t);
+            let mut s = format!("{}", r.len());
+            for q in r.iter() { s.push(' '); s.push_str(&fpoly(q)); }
+            s }
+        // `Compound::decompose_trimesh(&TriMesh::from_polygon(p)?)` through the public API
+        "decompose" => { let p = poly(a);
+            match TriMesh::from_polygon(p) { None => "none".into(), Some(m) => fcompound(Compound::decompose_trimesh(&m)) } }
+        // `Compound::decompose_trimesh(&TriMesh::new(p, t))`: any triangle list
+        "decompose_tris" => { let p = poly(a); let k = a.u();
+            let t: Vec<[u32; 3]> = (0..k).map(|_| [a.u() as u32, a.u() as u32, a.u() as u32]).collect();
+            match TriMesh::new(p, t) { Err(_) => "none".into(), Ok(m) => fcompound(Compound::decompose_trimesh(&m)) } }
         _ => "nofn".into(),
+    }
+}
+
+fn fpoly(p: &[P2]) -> String {
+    let mut s = format!("{}", p.len());
+    for q in p { s.push(' '); s.push_str(&d2::fp(q)); }
+    s
+}
+/// `cnone` | `shapes m (T a b c | P k points… normals…)*`
+fn fcompound(c: Option<Compound>) -> String {
+    match c {
+        None => "cnone".into(),
+        Some(c) => {
+            let mut s = format!("shapes {}", c.shapes().len());
+            for (m, sh) in c.shapes() {
+                if *m != d2::Isometry::identity() { s.push_str(" nonidentity"); }
+                if let Some(t) = sh.as_triangle() { s.push_str(&format!(" T {} {} {}", d2::fp(&t.a), d2::fp(&t.b), d2::fp(&t.c))); }
+                else if let Some(cp) = sh.as_convex_polygon() {
+                    s.push_str(&format!(" P {}", fpoly(cp.points())));
+                    for n in cp.normals() { s.push(' '); s.push_str(&d2::fv(&n.into_inner())); }
+                } else { s.push_str(" othershape"); }
+            }
+            s
+        }
     }
 }
 
@@ -201,13 +240,20 @@ pub fn gen(r: &mut Rng, thorough: bool) -> Vec<(String, String)> {
             for i in (1..t.len()).rev() { let j = r.below(i as u64 + 1) as usize; t.swap(i, j); }
             for x in t.iter_mut() { let k = r.below(3) as usize; x.rotate_left(k); }
             v.push(("hertel_mehlhorn".into(), format!("{} {}", hpoly(&q), htris(&t))));
-        }
+            // the public wrappers: point-valued Hertel–Mehlhorn and the Compound glue, on the shuffled tiling too
+            if it % 2 == 0 || it % 40 == 7 {
+                v.push(("decompose".into(), hpoly(&q)));
+                v.push(("hertel_mehlhorn_pts".into(), format!("{} {}", hpoly(&q), htris(&t))));
+                v.push(("decompose_tris".into(), format!("{} {}", hpoly(&q), htris(&t))));
+            }
+        } else if it % 4 == 0 { v.push(("decompose".into(), hpoly(&q))); }
         // fan triangulation of a convex polygon: everything merges back into one piece
         if it % 5 == 0 {
             let c = crate::registry::c15::gen_convex(r, lat);
             if c.len() >= 3 && is_ccw(&c) {
                 let t: Vec<[u32; 3]> = (1..c.len() as u32 - 1).map(|i| [0, i, i + 1]).collect();
                 v.push(("hertel_mehlhorn".into(), format!("{} {}", hpoly(&c), htris(&t))));
+                v.push(("decompose_tris".into(), format!("{} {}", hpoly(&c), htris(&t))));
             }
         }
     }
